@@ -3,3 +3,4 @@ import Driver.SemDrv
 import Driver.SSemDrv
 import Driver.SchedDrv
 import Driver.Main
+import Driver.RwDrv
